@@ -1,0 +1,164 @@
+//go:build verif
+
+package grpctunnel
+
+// This file is only compiled with the "verif" build tag. It provides
+// instrumentation for an external verification harness: yield points (no-ops
+// unless a hook is installed), read-only accessors for the per-tunnel stream
+// tables, and closure-returning constructors for the flow-control primitives.
+// Nothing here changes behaviour unless a hook is installed.
+
+import (
+	"context"
+	"sort"
+	"sync"
+	"sync/atomic"
+)
+
+var verifYieldHook atomic.Pointer[func(point string)]
+
+// VerifSetYieldHook installs (or, with nil, removes) the function that is
+// called at every yield point with the name of the point.
+func VerifSetYieldHook(hook func(point string)) {
+	if hook == nil {
+		verifYieldHook.Store(nil)
+		return
+	}
+	verifYieldHook.Store(&hook)
+}
+
+func verifYield(point string) {
+	if h := verifYieldHook.Load(); h != nil {
+		(*h)(point)
+	}
+}
+
+// VerifChannelStreamIDs returns the ids in the stream table of the given
+// channel (sorted), or nil, false if ch was not created by this package.
+func VerifChannelStreamIDs(ch TunnelChannel) ([]int64, bool) {
+	c, ok := ch.(*tunnelChannel)
+	if !ok {
+		return nil, false
+	}
+	c.mu.RLock()
+	defer c.mu.RUnlock()
+	ids := make([]int64, 0, len(c.streams))
+	for id := range c.streams {
+		ids = append(ids, id)
+	}
+	sort.Slice(ids, func(i, j int) bool { return ids[i] < ids[j] })
+	return ids, true
+}
+
+// VerifServerInfo describes one live tunnel server (the RPC-serving end of a
+// tunnel whose serve loop has not returned yet).
+type VerifServerInfo struct {
+	Seq       int     // creation sequence number (process wide)
+	StreamIDs []int64 // ids in the stream table, sorted
+	LastSeen  int64
+	Stream    any // the carrier stream the server runs on
+}
+
+var (
+	verifServersMu  sync.Mutex
+	verifServersSeq int
+	verifServers    = map[*tunnelServer]int{}
+)
+
+func verifTrackServer(s *tunnelServer) func() {
+	verifServersMu.Lock()
+	verifServersSeq++
+	verifServers[s] = verifServersSeq
+	verifServersMu.Unlock()
+	return func() {
+		verifServersMu.Lock()
+		delete(verifServers, s)
+		verifServersMu.Unlock()
+	}
+}
+
+// VerifServers returns a snapshot of all live tunnel servers, ordered by
+// creation.
+func VerifServers() []VerifServerInfo {
+	verifServersMu.Lock()
+	svrs := make(map[*tunnelServer]int, len(verifServers))
+	for s, seq := range verifServers {
+		svrs[s] = seq
+	}
+	verifServersMu.Unlock()
+	infos := make([]VerifServerInfo, 0, len(svrs))
+	for s, seq := range svrs {
+		s.mu.RLock()
+		ids := make([]int64, 0, len(s.streams))
+		for id := range s.streams {
+			ids = append(ids, id)
+		}
+		last := s.lastSeen
+		s.mu.RUnlock()
+		sort.Slice(ids, func(i, j int) bool { return ids[i] < ids[j] })
+		infos = append(infos, VerifServerInfo{Seq: seq, StreamIDs: ids, LastSeen: last, Stream: s.stream})
+	}
+	sort.Slice(infos, func(i, j int) bool { return infos[i].Seq < infos[j].Seq })
+	return infos
+}
+
+// VerifSender exposes a flow-control sender through closures.
+type VerifSender struct {
+	Send         func(data []byte) error
+	UpdateWindow func(add uint32)
+	// Window reports the current window; ok is false for senders without
+	// flow control.
+	Window func() (window uint32, ok bool)
+}
+
+// VerifNewSender returns a flow-controlled sender, exactly as created for a
+// stream that uses protocol revision one.
+func VerifNewSender(ctx context.Context, initialWindowSize uint32, sendFunc func(data []byte, totalSize uint32, first bool) error) VerifSender {
+	s := newSender(ctx, initialWindowSize, sendFunc)
+	return VerifSender{
+		Send:         s.send,
+		UpdateWindow: s.updateWindow,
+		Window: func() (uint32, bool) {
+			if ds, ok := s.(*defaultSender); ok {
+				return ds.currentWindow.Load(), true
+			}
+			return 0, false
+		},
+	}
+}
+
+// VerifNewSenderWithoutFlowControl returns a sender as created for a stream
+// that uses protocol revision zero.
+func VerifNewSenderWithoutFlowControl(sendFunc func(data []byte, totalSize uint32, first bool) error) VerifSender {
+	s := newSenderWithoutFlowControl(sendFunc)
+	return VerifSender{
+		Send:         s.send,
+		UpdateWindow: s.updateWindow,
+		Window:       func() (uint32, bool) { return 0, false },
+	}
+}
+
+// VerifReceiver exposes a per-stream receiver through closures.
+type VerifReceiver struct {
+	Accept  func(item any) error
+	Close   func()
+	Cancel  func()
+	Dequeue func() (any, bool)
+}
+
+// VerifNewReceiver returns a flow-controlled receiver, exactly as created for
+// a stream that uses protocol revision one.
+func VerifNewReceiver(measure func(any) uint, updateWindow func(uint32), initialWindowSize uint32) VerifReceiver {
+	r := newReceiver[any](measure, updateWindow, initialWindowSize)
+	return VerifReceiver{Accept: r.accept, Close: r.close, Cancel: r.cancel, Dequeue: r.dequeue}
+}
+
+// VerifNewReceiverWithoutFlowControl returns a receiver as created for a
+// stream that uses protocol revision zero.
+func VerifNewReceiverWithoutFlowControl(ctx context.Context) VerifReceiver {
+	r := newReceiverWithoutFlowControl[any](ctx)
+	return VerifReceiver{Accept: r.accept, Close: r.close, Cancel: r.cancel, Dequeue: r.dequeue}
+}
+
+// VerifConstants reports the compiled-in flow-control constants.
+func VerifConstants() (window uint32, chunk int) { return initialWindowSize, chunkMax }
